@@ -184,6 +184,8 @@ fn run<S: Fl>(ctx: &mut Ctx) {
             for p in 0..n * n {
                 for d in [tiny, S::c(0.25)] { let mut c = ident.clone(); c[p] = c[p] + d; cases.push(c); }
                 let mut c = vec![zero; n * n]; c[p] = S::c(0.5); cases.push(c);
+                // all zero but one element that is tiny (still ulps-equal to zero) or negative tiny
+                for d in [tiny, S::c(-1e-20), S::c(1e-300)] { let mut c = vec![zero; n * n]; c[p] = d; cases.push(c); }
                 // symmetric matrix with one element of a mirror pair perturbed
                 let mut sy: Vec<S> = (0..n * n).map(|i| S::c(1.0 + ((i / n) * (i % n)) as f64 + ((i / n) + (i % n)) as f64 * 0.5)).collect();
                 sy[p] = sy[p] + S::c(0.125);
